@@ -176,7 +176,7 @@ def _run(case):
                     elif k == "winddown":
                         # liveness exploration: the server refuses / closes everything still pending
                         trace.append(["winddown"])
-                        for _ in range(4 * len(flows) + 20):
+                        for _ in range(2000):
                             live = [c for c in srv.conns if not c["closed"] and not c.get("answered")]
                             if srv.pending: srv.pending.popleft().set_result(False)
                             elif live: live[0]["answered"] = True; live[0]["r"].feed_eof()
